@@ -29,7 +29,7 @@ def specs():
 def units(bins, tier, seed):
     b = bins["c01_frontends"]
     us = []
-    nproc, n = (10, 500) if tier == "quick" else (14, 12000)
+    nproc, n = (12, 1500) if tier == "quick" else (14, 12000)
     for i in range(nproc):
         us.append(Unit("c01_frontends.rc%d" % i, [b], env={"RC_PARAMS": rc_params(seed * 1000 + i, n, 100), "VERIF_REGRESS": 1 if i == 0 else 0}, group="random", timeout=7200))
     ne = 4 if tier == "quick" else 2
@@ -40,7 +40,7 @@ def units(bins, tier, seed):
 
 def run(tier, seed):
     return verif.standard(ID, tier, seed, specs(), units, RULE, level=LEVEL,
-                          floor={"random": 10 * 500, "enum": 2000},
+                          floor={"random": 12000, "enum": 2000},
                           assumptions=["harness encoders and de-framers (harness/common/vclient.h) are correct",
                                        "all library socket reads go through ::readv (booster stream_socket.cpp)"])
 
